@@ -81,6 +81,10 @@ func runC11(o *hx.Out, r *hx.Rand, thorough bool) {
 		hcode = 0
 		if r.Chance(40) {
 			hcode = int64(r.Range(1, 16))
+			if r.Chance(15) {
+				// grpc-go passes codes outside the seventeen defined ones through untouched
+				hcode = []int64{17, 42, 99, 1000}[r.Intn(4)]
+			}
 		}
 		hdr := http.Header{}
 		binOK := true
@@ -402,6 +406,48 @@ func runC11(o *hx.Out, r *hx.Rand, thorough bool) {
 		}
 		o.Case("overlapping_replies", fmt.Sprintf("GoSide %s %s", hx.Str("overlapping replies, "+ct), hx.B(ok)), d)
 	}
+	// a service whose message types implement only the ORIGINAL protobuf Go API (Reset/String/ProtoMessage, fields
+	// described by struct tags: older protoc-gen-go, gogo/protobuf, hand-written): its JSON-encoded request is
+	// handled exactly like its protobuf-encoded one
+	{
+		var saw []int32
+		ld := &grpc.ServiceDesc{ServiceName: "legacy.Svc", HandlerType: (*interface{})(nil), Methods: []grpc.MethodDesc{{MethodName: "U",
+			Handler: func(srv interface{}, ctx context.Context, dec func(interface{}) error, _ grpc.UnaryServerInterceptor) (interface{}, error) {
+				in := &legacyMsg{}
+				if err := dec(in); err != nil {
+					return nil, err
+				}
+				saw = append(saw, in.Count)
+				return &legacyMsg{Count: in.Count + 1}, nil
+			}}}}
+		lh := httpgrpc.HandleMethod(struct{}{}, "legacy.Svc", &ld.Methods[0], nil)
+		type reply struct {
+			code int
+			body string
+		}
+		var got []reply
+		for _, rq := range []struct{ ct, body string }{{httpgrpc.UnaryRpcContentType_V1, "\x08\x05"}, {httpgrpc.ApplicationJson, `{"count":5}`}} {
+			rec := httptest.NewRecorder()
+			hr, _ := http.NewRequest("POST", "/legacy.Svc/U", strings.NewReader(rq.body))
+			hr.Header.Set("Content-Type", rq.ct)
+			func() {
+				defer func() {
+					if p := recover(); p != nil {
+						rec.Code = -1
+					}
+				}()
+				lh(rec, hr)
+			}()
+			got = append(got, reply{rec.Code, rec.Body.String()})
+		}
+		ok := fmt.Sprint(saw) == "[5 5]" && got[0].code == 200 && got[1].code == 200 && got[0].body == "\x08\x06" && strings.Contains(strings.ReplaceAll(got[1].body, " ", ""), `"count":6`)
+		d := map[string]interface{}{"scenario": "messages of the original (APIv1) protobuf Go API; the same request as protobuf and as JSON", "handler_saw_counts": saw,
+			"protobuf_status": got[0].code, "json_status": got[1].code, "json_reply": got[1].body}
+		if !ok {
+			o.Violate("a JSON-encoded unary request was not handled like its protobuf encoding", d, fmt.Sprint(got), "200 for both, the handler given count 5 twice")
+		}
+		o.Case("legacy_messages_json", fmt.Sprintf("GoSide %s %s", hx.Str("APIv1 messages, JSON like protobuf"), hx.B(ok)), d)
+	}
 	// unknown paths through the server's mux
 	for _, p := range []string{"/", "/verif.Svc", "/verif.Svc/", "/verif.Svc/Nope", "/other.Svc/U", "/verif.Svc/U/x", "/verif.svc/u"} {
 		req := httptest.NewRequest("POST", p, bytes.NewReader(pb))
@@ -428,3 +474,12 @@ func (w *nestingWriter) Write(b []byte) (int, error) {
 	}
 	return w.ResponseRecorder.Write(b)
 }
+
+// legacyMsg implements only the original protobuf Go API
+type legacyMsg struct {
+	Count int32 `protobuf:"varint,1,opt,name=count,proto3" json:"count,omitempty"`
+}
+
+func (m *legacyMsg) Reset()         { *m = legacyMsg{} }
+func (m *legacyMsg) String() string { return fmt.Sprintf("count:%d", m.Count) }
+func (*legacyMsg) ProtoMessage()    {}
